@@ -330,14 +330,19 @@ def remove_unused_imports(source: str) -> str:
 
 
 def fix_too_many_blank_lines(source: str) -> str:
+    # Blank lines inside a multi-line string are not to be removed, so every step must keep the
+    # syntax tree as it is.
+
     # At module level, remove all above 2 blank lines
-    source = re.sub(r"(\n\s*){3,}\n", "\n" * 3, source)
+    source = processing.keep_syntax_tree(source, re.sub(r"(\n\s*){3,}\n", "\n" * 3, source))
 
     # At EOF, remove all newlines and whitespace above 1
-    source = re.sub(r"(\n\s*){2,}\Z", "\n", source)
+    source = processing.keep_syntax_tree(source, re.sub(r"(\n\s*){2,}\Z", "\n", source))
 
     # At non-module (any indented) level, remove all newlines above 1, preserve indent
-    source = re.sub(r"(\n\s*){2,}(\n\s+)(?=[^\n\s])", r"\n\g<2>", source)
+    source = processing.keep_syntax_tree(
+        source, re.sub(r"(\n\s*){2,}(\n\s+)(?=[^\n\s])", r"\n\g<2>", source)
+    )
 
     return source
 
@@ -393,6 +398,11 @@ def fix_line_lengths(source: str, *, max_line_length: int = 100) -> str:
 
         new_code = formatting.collapse_trailing_parentheses(new_code)
         if new_code != formatting.collapse_trailing_parentheses(current_code):
+            # Dedenting and indenting also moves the lines of multi-line strings
+            candidate = source[: source_range.start] + new_code + source[source_range.end :]
+            if processing.keep_syntax_tree(source, candidate) is not candidate:
+                continue
+
             yield source_range, new_code
             formatted_ranges.add(source_range)
 
